@@ -1,6 +1,6 @@
 CONSTANTS
-    Chans = {1, 2}
-    MaxCalls = 1
+    Chans = {1}
+    MaxCalls = 2
     SrvBudget = 2
     Ops = {"listen", "publish"}
     SrvKinds = {"ack", "blocked"}
